@@ -4,42 +4,62 @@ From Verif Require Import Base.Bytes Model.Positions Proofs.PositionsBase.
 Local Open Scope Z_scope.
 
 (* ---------------- the walk of the non-ASCII path ---------------- *)
-Lemma walk_prefix : forall runes cs1 cs2 b c,
-  (runes = true \/ forallb w1 cs1 = true) ->
-  walk runes (cs1 ++ cs2) b c (c + Z.of_nat (length cs1)) = b + slenZ (concat_str cs1).
+Lemma walk_prefix : forall cs1 rest b c,
+  walk (one_each cs1 ++ rest) b c (c + Z.of_nat (length cs1)) = b + slenZ (concat_str cs1).
 Proof.
-  induction cs1 as [|x cs1 IH]; intros cs2 b c Hw.
-  - cbn [app length concat_str]. change (slenZ EmptyString) with 0. rewrite !Z.add_0_r.
-    destruct cs2 as [|y r]; cbn [walk]; [reflexivity|]. now rewrite Z.ltb_irrefl.
-  - cbn [app length concat_str walk].
+  induction cs1 as [|x cs1 IH]; intros rest b c.
+  - cbn [one_each map app length concat_str]. change (slenZ EmptyString) with 0. rewrite !Z.add_0_r.
+    destruct rest as [|[y w] r]; cbn [walk]; [reflexivity|]. now rewrite Z.ltb_irrefl.
+  - cbn [one_each map app length concat_str walk]. fold (one_each cs1).
     replace (c <? c + Z.of_nat (S (length cs1))) with true by lia.
-    assert (Hx : cp_width runes x = 1).
-    { destruct Hw as [-> | Hw]; [reflexivity|]. cbn [forallb] in Hw. apply andb_prop in Hw.
-      destruct Hw as [Hx _]. unfold w1 in Hx. destruct runes; [reflexivity | lia]. }
-    rewrite Hx. replace (c + Z.of_nat (S (length cs1))) with ((c + 1) + Z.of_nat (length cs1)) by lia.
-    rewrite IH.
-    + rewrite slenZ_app. lia.
-    + destruct Hw as [-> | Hw]; [now left | right]. cbn [forallb] in Hw. now apply andb_prop in Hw.
+    replace (c + Z.of_nat (S (length cs1))) with ((c + 1) + Z.of_nat (length cs1)) by lia.
+    rewrite IH, slenZ_app. lia.
 Qed.
 
-(* the ASCII fast path computes what the general walk computes *)
-Lemma ascii_fast_path : forall runes l off col,
-  is_ascii_str l = true -> (runes = true \/ forallb w1 (chars_of l) = true) ->
-  1 <= col -> col - 1 <= slenZ l ->
-  walk runes (chars_of l) off 1 col = off + col - 1.
+(* the walk never moves backwards, and a later column is never reported before an earlier one *)
+Lemma walk_ge : forall cls b c column, b <= walk cls b c column.
 Proof.
-  intros runes l off col Ha Hw H1 H2.
+  induction cls as [|[cl w] r IH]; intros b c column; cbn [walk]; [lia|].
+  destruct (c <? column); [|lia]. specialize (IH (b + slenZ cl) (c + w) column).
+  pose proof (slenZ_nonneg cl). lia.
+Qed.
+
+Lemma walk_mono : forall cls b c col1 col2, col1 <= col2 -> walk cls b c col1 <= walk cls b c col2.
+Proof.
+  induction cls as [|[cl w] r IH]; intros b c col1 col2 H; cbn [walk]; [lia|].
+  destruct (c <? col1) eqn:E1.
+  - replace (c <? col2) with true by lia. now apply IH.
+  - destruct (c <? col2); [|lia].
+    pose proof (walk_ge r (b + slenZ cl) (c + w) col2). pose proof (slenZ_nonneg cl). lia.
+Qed.
+
+(* one column per code point: the walk stays on the line *)
+Lemma walk_one_each_le : forall cs b c column, walk (one_each cs) b c column <= b + slenZ (concat_str cs).
+Proof.
+  induction cs as [|x cs IH]; intros b c column; cbn [one_each map walk concat_str].
+  - change (slenZ EmptyString) with 0. lia.
+  - fold (one_each cs). rewrite slenZ_app. destruct (c <? column).
+    + specialize (IH (b + slenZ x) (c + 1) column). lia.
+    + pose proof (slenZ_nonneg x). pose proof (slenZ_nonneg (concat_str cs)). lia.
+Qed.
+
+(* the ASCII fast path computes what the general walk computes when the clusters of the line are its characters
+   with width 1 each (always so when pos advances one column per code point) *)
+Lemma ascii_fast_path : forall cls l off col,
+  is_ascii_str l = true -> w1_prefix cls (chars_of l) = true ->
+  1 <= col -> col - 1 <= slenZ l ->
+  walk cls off 1 col = off + col - 1.
+Proof.
+  intros cls l off col Ha Hw H1 H2.
   pose proof (ascii_chars_len1 l Ha) as Hl.
   pose proof (len1_concat _ Hl) as Hn. rewrite chars_concat in Hn.
   set (k := Z.to_nat (col - 1)).
-  rewrite <- (firstn_skipn k (chars_of l)) at 1.
+  rewrite <- (firstn_skipn k (chars_of l)) in Hw. apply w1_prefix_app_l, w1_prefix_split in Hw.
+  destruct Hw as [rest ->].
   assert (Hk : length (firstn k (chars_of l)) = k) by (rewrite firstn_length; lia).
   replace col with (1 + Z.of_nat (length (firstn k (chars_of l)))) at 1 by lia.
-  rewrite walk_prefix.
-  - rewrite len1_concat; [lia|]. rewrite <- (firstn_skipn k (chars_of l)) in Hl.
-    apply Forall_app in Hl. tauto.
-  - destruct Hw as [-> | Hw]; [now left | right].
-    rewrite <- (firstn_skipn k (chars_of l)), forallb_app in Hw. now apply andb_prop in Hw.
+  rewrite walk_prefix, len1_concat; [lia|].
+  rewrite <- (firstn_skipn k (chars_of l)) in Hl. apply Forall_app in Hl. tauto.
 Qed.
 
 (* ---------------- pos on a position of the text ---------------- *)
@@ -48,16 +68,16 @@ Definition line_ok (p : pos_params) (nlines line : Z) : Prop :=
   pp_lo p <= 1 /\ (pp_hi_incl p = true \/ line < nlines).
 
 (* byte offset = offset of the line start + byte length of the first col-1 characters of the line *)
-Theorem pos_decomp : forall p text pre l post cs1 cs2,
+Theorem pos_decomp : forall p u text pre l post cs1 cs2,
   lines_of text = pre ++ l :: post ->
   chars_of l = cs1 ++ cs2 ->
   line_ok p (Z.of_nat (length (lines_of text))) (Z.of_nat (length pre) + 1) ->
-  (pp_runes p = true \/ is_ascii_str l = true \/ forallb w1 cs1 = true) ->
-  pos p (new_position_index text) (Z.of_nat (length pre) + 1) (Z.of_nat (length cs1) + 1)
+  (pp_runes p = true \/ is_ascii_str l = true \/ w1_prefix (u_seg u l) cs1 = true) ->
+  pos p u (new_position_index text) (Z.of_nat (length pre) + 1) (Z.of_nat (length cs1) + 1)
   = Some {| p_line := Z.of_nat (length pre) + 1; p_col := Z.of_nat (length cs1) + 1;
             p_byte := lines_len pre + slenZ (concat_str cs1) |}.
 Proof.
-  intros p text pre l post cs1 cs2 Hl Hc [Hlo Hhi] Hw.
+  intros p u text pre l post cs1 cs2 Hl Hc [Hlo Hhi] Hw.
   unfold pos, new_position_index. rewrite index_from_length, Hl in *.
   rewrite app_length in *. cbn [length] in *.
   replace (Z.of_nat (length pre) + 1 <? pp_lo p) with false by lia.
@@ -78,9 +98,13 @@ Proof.
     do 2 f_equal. destruct (pp_clamp p); [|lia].
     destruct ((1 <=? Z.of_nat (length cs1) + 1) && (Z.of_nat (length cs1) + 1 - 1 <? slenZ l)) eqn:E; lia.
   - (* walk *)
-    do 2 f_equal. rewrite Hc.
+    do 2 f_equal.
     replace (Z.of_nat (length cs1) + 1) with (1 + Z.of_nat (length cs1)) by lia.
-    rewrite walk_prefix; [lia|]. destruct Hw as [Hw | [Hw | Hw]]; [now left | discriminate Hw | now right].
+    assert (Hcl : exists rest, clusters p u l = one_each cs1 ++ rest).
+    { unfold clusters. destruct Hw as [Hw | [Hw | Hw]]; [|discriminate Hw|].
+      - rewrite Hw, Hc, one_each_app. now eexists.
+      - destruct (pp_runes p); [rewrite Hc, one_each_app; now eexists | now apply w1_prefix_split]. }
+    destruct Hcl as [rest ->]. rewrite walk_prefix. lia.
 Qed.
 
 (* ---------------- true_byte: decomposition, bounds, monotonicity ---------------- *)
@@ -197,53 +221,53 @@ Proof.
   rewrite H, nth_error_app2, Nat.sub_diag by lia. reflexivity.
 Qed.
 
-Theorem pos_true_byte : forall p text line col b,
+Theorem pos_true_byte : forall p u text line col b,
   true_byte text line col = Some b ->
   line_ok p (Z.of_nat (length (lines_of text))) line ->
-  zero_width_before p text line col = false ->
-  pos p (new_position_index text) line col = Some {| p_line := line; p_col := col; p_byte := b |}.
+  irregular_before p u text line col = false ->
+  pos p u (new_position_index text) line col = Some {| p_line := line; p_col := col; p_byte := b |}.
 Proof.
-  intros p text line col b H Hok Hz. apply true_byte_decomp in H.
+  intros p u text line col b H Hok Hz. apply true_byte_decomp in H.
   destruct H as (pre & l & post & cs1 & cs2 & Hl & Hc & -> & -> & ->).
-  apply (pos_decomp p text pre l post cs1 cs2 Hl Hc Hok).
-  unfold zero_width_before in Hz. rewrite (line_at_decomp text pre l post Hl) in Hz.
+  apply (pos_decomp p u text pre l post cs1 cs2 Hl Hc Hok).
+  unfold irregular_before in Hz. rewrite (line_at_decomp text pre l post Hl) in Hz.
   replace (Z.to_nat (Z.of_nat (length cs1) + 1 - 1)) with (length cs1) in Hz by lia.
   rewrite Hc, firstn_app, firstn_all, Nat.sub_diag in Hz. cbn [firstn] in Hz. rewrite app_nil_r in Hz.
   destruct (pp_runes p); [now left|]. destruct (is_ascii_str l); [right; now left|].
-  right; right. cbn [negb andb] in Hz. now destruct (forallb w1 cs1).
+  right; right. cbn [negb andb] in Hz. now destruct (w1_prefix (u_seg u l) cs1).
 Qed.
 
 (* ---------------- ranges of nodes ---------------- *)
-Lemma node_range_spec : forall p idx n b e, node_range p idx n = Some (b, e) ->
-  pos p idx (yn_line n) (yn_col n) = Some b /\
-  pos p idx (fst (end_lc p n)) (snd (end_lc p n)) = Some e.
+Lemma node_range_spec : forall p u idx n b e, node_range p u idx n = Some (b, e) ->
+  pos p u idx (yn_line n) (yn_col n) = Some b /\
+  pos p u idx (fst (end_lc p n)) (snd (end_lc p n)) = Some e.
 Proof.
-  intros p idx n b e H. unfold node_range, yaml_end_pos in H.
+  intros p u idx n b e H. unfold node_range, yaml_end_pos in H.
   destruct (end_lc p n) as [l c]. cbn [fst snd].
-  destruct (pos p idx (yn_line n) (yn_col n)); [|discriminate H].
-  destruct (pos p idx l c); [|discriminate H]. now injection H as <- <-.
+  destruct (pos p u idx (yn_line n) (yn_col n)); [|discriminate H].
+  destruct (pos p u idx l c); [|discriminate H]. now injection H as <- <-.
 Qed.
 
 (* every reported range whose two (line, column) pairs exist in the text and are in order lies in the text,
    begin not after end, byte offsets agreeing with line and column *)
-Theorem range_in_text : forall p text n tb te,
+Theorem range_in_text : forall p u text n tb te,
   let nl := Z.of_nat (length (lines_of text)) in
   let '(el, ec) := end_lc p n in
   true_byte text (yn_line n) (yn_col n) = Some tb ->
   true_byte text el ec = Some te ->
   line_ok p nl (yn_line n) -> line_ok p nl el ->
-  zero_width_before p text (yn_line n) (yn_col n) = false ->
-  zero_width_before p text el ec = false ->
+  irregular_before p u text (yn_line n) (yn_col n) = false ->
+  irregular_before p u text el ec = false ->
   lex_le (yn_line n) (yn_col n) el ec ->
-  node_range p (new_position_index text) n
+  node_range p u (new_position_index text) n
   = Some ({| p_line := yn_line n; p_col := yn_col n; p_byte := tb |},
           {| p_line := el; p_col := ec; p_byte := te |})
   /\ 0 <= tb /\ tb <= te /\ te <= slenZ text.
 Proof.
-  intros p text n tb te nl. destruct (end_lc p n) as [el ec] eqn:Ee.
+  intros p u text n tb te nl. destruct (end_lc p n) as [el ec] eqn:Ee.
   intros Hb He Hokb Hoke Hzb Hze Hle. split.
   - unfold node_range, yaml_end_pos. rewrite Ee.
-    rewrite (pos_true_byte p text _ _ tb Hb Hokb Hzb), (pos_true_byte p text _ _ te He Hoke Hze). reflexivity.
+    rewrite (pos_true_byte p u text _ _ tb Hb Hokb Hzb), (pos_true_byte p u text _ _ te He Hoke Hze). reflexivity.
   - pose proof (true_byte_bounds _ _ _ _ Hb). pose proof (true_byte_bounds _ _ _ _ He).
     pose proof (true_byte_mono _ _ _ _ _ _ _ Hb He Hle). lia.
 Qed.
@@ -317,8 +341,9 @@ Proof.
 Qed.
 
 (* ---------------- plain single-line scalars ---------------- *)
-(* the scalar [value] sits on line |pre|+1 after the characters of [a]:  line = a ++ value ++ z *)
-Theorem plain_scalar_slice : forall p text pre a value z post tag anch,
+(* the scalar [value] sits on line |pre|+1 after the characters of [a]:  line = a ++ value ++ z.
+   The node is NOT anchored: yaml.v3 reports an anchored scalar at its `&` (see anchored_slice_refuted). *)
+Theorem plain_scalar_slice : forall p u text pre a value z post tag,
   lines_of text = pre ++ (a +++ value +++ z) :: post ->
   complete a = true -> complete value = true ->
   (pp_end_chars p = true \/ is_ascii_str value = true) ->
@@ -326,31 +351,32 @@ Theorem plain_scalar_slice : forall p text pre a value z post tag anch,
   let line := Z.of_nat (length pre) + 1 in
   let col := nchars a + 1 in
   line_ok p (Z.of_nat (length (lines_of text))) line ->
-  (pp_runes p = true \/ is_ascii_str l = true \/ forallb w1 (chars_of (a +++ value)) = true) ->
+  (pp_runes p = true \/ is_ascii_str l = true \/ w1_prefix (u_seg u l) (chars_of (a +++ value)) = true) ->
   let b := lines_len pre + slenZ a in
   let e := b + slenZ value in
-  node_range p (new_position_index text) (YNode 8 0 tag value line col anch [])
+  node_range p u (new_position_index text) (YNode 8 0 tag value line col false [])
   = Some ({| p_line := line; p_col := col; p_byte := b |},
           {| p_line := line; p_col := col + nchars value; p_byte := e |})
   /\ substr b e text = value
   /\ 0 <= b /\ b <= e /\ e <= slenZ text
   /\ true_byte text line col = Some b /\ true_byte text line (col + nchars value) = Some e.
 Proof.
-  intros p text pre a value z post tag anch Hl Ha Hv Hunit l line col Hok Hw b e.
+  intros p u text pre a value z post tag Hl Ha Hv Hunit l line col Hok Hw b e.
   assert (Hcs : chars_of l = chars_of a ++ chars_of value ++ chars_of z).
   { unfold l. rewrite (chars_app a _ Ha), (chars_app value _ Hv). reflexivity. }
   assert (Hcs2 : chars_of l = (chars_of a ++ chars_of value) ++ chars_of z) by (now rewrite <- app_assoc).
   assert (Hend : str_len (pp_end_chars p) value = nchars value).
   { unfold str_len. destruct (pp_end_chars p); [reflexivity|].
     destruct Hunit as [Hu | Hu]; [discriminate Hu | now rewrite ascii_nchars]. }
-  assert (Hw1 : pp_runes p = true \/ is_ascii_str l = true \/ forallb w1 (chars_of a) = true).
+  assert (Hw1 : pp_runes p = true \/ is_ascii_str l = true \/ w1_prefix (u_seg u l) (chars_of a) = true).
   { destruct Hw as [Hw | [Hw | Hw]]; [now left | right; now left | right; right].
-    rewrite (chars_app a _ Ha), forallb_app in Hw. now apply andb_prop in Hw. }
-  assert (Hw2 : pp_runes p = true \/ is_ascii_str l = true \/ forallb w1 (chars_of a ++ chars_of value) = true).
+    rewrite (chars_app a _ Ha) in Hw. now apply w1_prefix_app_l in Hw. }
+  assert (Hw2 : pp_runes p = true \/ is_ascii_str l = true
+                \/ w1_prefix (u_seg u l) (chars_of a ++ chars_of value) = true).
   { destruct Hw as [Hw | [Hw | Hw]]; [now left | right; now left | right; right].
     now rewrite (chars_app a _ Ha) in Hw. }
-  pose proof (pos_decomp p text pre l post _ _ Hl Hcs Hok Hw1) as Pb.
-  pose proof (pos_decomp p text pre l post _ _ Hl Hcs2 Hok Hw2) as Pe.
+  pose proof (pos_decomp p u text pre l post _ _ Hl Hcs Hok Hw1) as Pb.
+  pose proof (pos_decomp p u text pre l post _ _ Hl Hcs2 Hok Hw2) as Pe.
   rewrite chars_concat in Pb. rewrite concat_str_app, !chars_concat, slenZ_app, app_length in Pe.
   assert (Hcol : Z.of_nat (length (chars_of a)) + 1 = col) by reflexivity.
   assert (Hcol2 : Z.of_nat (length (chars_of a) + length (chars_of value)) + 1 = col + nchars value)
@@ -378,8 +404,13 @@ Proof.
   - exact Te.
 Qed.
 
+(* the anchor flag plays no role in the computation: an anchored node gets the range of the un-anchored one *)
+Lemma node_range_ignores_anchor : forall p u idx k s t v l c a1 a2 ch,
+  node_range p u idx (YNode k s t v l c a1 ch) = node_range p u idx (YNode k s t v l c a2 ch).
+Proof. reflexivity. Qed.
+
 (* ---------------- sub-ranges of a plain single-line scalar: ScalarRange ---------------- *)
-Theorem scalar_subrange : forall p text pre a v1 v2 v3 z post tag anch style,
+Theorem scalar_subrange : forall p u text pre a v1 v2 v3 z post tag style,
   let value := v1 +++ v2 +++ v3 in
   lines_of text = pre ++ (a +++ value +++ z) :: post ->
   complete a = true -> complete v1 = true -> complete v2 = true -> complete v3 = true ->
@@ -389,22 +420,22 @@ Theorem scalar_subrange : forall p text pre a v1 v2 v3 z post tag anch style,
   let line := Z.of_nat (length pre) + 1 in
   let col := nchars a + 1 in
   line_ok p (Z.of_nat (length (lines_of text))) line ->
-  (pp_runes p = true \/ is_ascii_str l = true \/ forallb w1 (chars_of (a +++ value)) = true) ->
-  (pp_sr_runes p = true \/ forallb w1 (chars_of (v1 +++ v2)) = true) ->
-  forall rng, node_range p (new_position_index text) (YNode 8 0 tag value line col anch []) = Some rng ->
+  (pp_runes p = true \/ is_ascii_str l = true \/ w1_prefix (u_seg u l) (chars_of (a +++ value)) = true) ->
+  (pp_sr_runes p = true \/ (u_width u v1 = nchars v1 /\ u_width u (v1 +++ v2) = nchars (v1 +++ v2))) ->
+  forall rng, node_range p u (new_position_index text) (YNode 8 0 tag value line col false []) = Some rng ->
   let st := String.length v1 in
   let en := (String.length v1 + String.length v2)%nat in
   exists b' e',
-    scalar_range p (YNode 8 style tag value line col anch []) rng st en = Some (b', e')
+    scalar_range p u (YNode 8 style tag value line col false []) rng st en = Some (b', e')
     /\ p_line b' = line /\ p_line e' = line
     /\ true_byte text line (p_col b') = Some (p_byte b')
     /\ true_byte text line (p_col e') = Some (p_byte e')
     /\ substr (p_byte b') (p_byte e') text = v2
     /\ p_byte b' <= p_byte e' <= slenZ text.
 Proof.
-  intros p text pre a v1 v2 v3 z post tag anch style value Hl Ha H1 H2 H3 Hunit Hst l line col Hok Hw Hsr rng Hr st en.
+  intros p u text pre a v1 v2 v3 z post tag style value Hl Ha H1 H2 H3 Hunit Hst l line col Hok Hw Hsr rng Hr st en.
   assert (Hv : complete value = true) by (unfold value; auto using complete_app).
-  destruct (plain_scalar_slice p text pre a value z post tag anch Hl Ha Hv Hunit Hok Hw)
+  destruct (plain_scalar_slice p u text pre a value z post tag Hl Ha Hv Hunit Hok Hw)
     as (Hnr & _ & _ & _ & _ & _ & _).
   fold line col in Hnr. rewrite Hnr in Hr. injection Hr as <-.
   unfold scalar_range. cbn [yn_kind yn_style yn_value p_line p_col p_byte].
@@ -415,11 +446,10 @@ Proof.
   assert (Hk2 : stake en value = v1 +++ v2).
   { unfold en, value. rewrite <- length_app_s, <- app_assoc_s. apply stake_app. }
   rewrite Hk1, Hk2.
-  assert (W1 : sum_width (pp_sr_runes p) (chars_of v1) = nchars v1).
-  { unfold nchars. apply sum_width_w1. destruct Hsr as [Hs | Hs]; [now left | right].
-    rewrite (chars_app v1 _ H1), forallb_app in Hs. now apply andb_prop in Hs. }
-  assert (W2 : sum_width (pp_sr_runes p) (chars_of (v1 +++ v2)) = nchars (v1 +++ v2))
-    by (unfold nchars; now apply sum_width_w1).
+  assert (W1 : (if pp_sr_runes p then nchars v1 else u_width u v1) = nchars v1).
+  { destruct (pp_sr_runes p); [reflexivity|]. destruct Hsr as [Hs | [Hs _]]; [discriminate Hs | exact Hs]. }
+  assert (W2 : (if pp_sr_runes p then nchars (v1 +++ v2) else u_width u (v1 +++ v2)) = nchars (v1 +++ v2)).
+  { destruct (pp_sr_runes p); [reflexivity|]. destruct Hsr as [Hs | [_ Hs]]; [discriminate Hs | exact Hs]. }
   rewrite W1, W2.
   eexists; eexists. split; [reflexivity|]. cbn [p_line p_col p_byte].
   (* decompose the line at the two sub-positions *)
@@ -454,4 +484,124 @@ Proof.
     rewrite Htext. apply substr_mid; rewrite ?slenZ_app, ?lines_len_concat_nl; clear; lia.
   - pose proof (slenZ_nonneg v2) as Hn. clear - Hn. lia.
   - pose proof (true_byte_bounds _ _ _ _ Tb) as Hn. clear - Hn. lia.
+Qed.
+
+(* ---------------- every node, whether or not the end the code computes exists in the text ---------------- *)
+(* a position on a line of the text, at any column >= 1 (also past the end of the line) *)
+Lemma pos_line_bounds : forall p u text pre l post col,
+  lines_of text = pre ++ l :: post ->
+  line_ok p (Z.of_nat (length (lines_of text))) (Z.of_nat (length pre) + 1) -> 1 <= col ->
+  exists bt, pos p u (new_position_index text) (Z.of_nat (length pre) + 1) col
+             = Some {| p_line := Z.of_nat (length pre) + 1; p_col := col; p_byte := bt |}
+    /\ lines_len pre <= bt
+    /\ (pp_clamp p = true -> pp_runes p = true -> bt <= lines_len pre + slenZ l).
+Proof.
+  intros p u text pre l post col Hl [Hlo Hhi] Hc.
+  unfold pos, new_position_index. rewrite index_from_length, Hl in *.
+  rewrite app_length in *. cbn [length] in *.
+  replace (Z.of_nat (length pre) + 1 <? pp_lo p) with false by lia.
+  replace (if pp_hi_incl p
+           then Z.of_nat (length pre + S (length post)) <? Z.of_nat (length pre) + 1
+           else Z.of_nat (length pre + S (length post)) <=? Z.of_nat (length pre) + 1) with false
+    by (destruct (pp_hi_incl p); destruct Hhi as [Hh | Hh]; try discriminate Hh; lia).
+  cbn [orb]. replace (Z.of_nat (length pre) + 1 <? 1) with false by lia.
+  replace (Z.to_nat (Z.of_nat (length pre) + 1 - 1)) with (length pre) by lia.
+  rewrite index_from_nth. cbn [l_ascii l_off l_line].
+  pose proof (slenZ_nonneg l) as Hn.
+  destruct (is_ascii_str l) eqn:Ea.
+  - eexists. split; [reflexivity|]. split.
+    + destruct (pp_clamp p); [|lia]. destruct ((1 <=? col) && (col - 1 <? slenZ l)); lia.
+    + intros -> _. destruct ((1 <=? col) && (col - 1 <? slenZ l)) eqn:E; lia.
+  - eexists. split; [reflexivity|]. split.
+    + pose proof (walk_ge (clusters p u l) (0 + lines_len pre) 1 col). lia.
+    + intros _ Hr. unfold clusters. rewrite Hr.
+      pose proof (walk_one_each_le (chars_of l) (0 + lines_len pre) 1 col) as W. rewrite chars_concat in W. lia.
+Qed.
+
+(* on one line, a later column is never reported at an earlier byte *)
+Lemma pos_mono_col : forall p u idx line c1 c2 h1, 1 <= c1 -> c1 <= c2 ->
+  pos p u idx line c1 = Some h1 ->
+  exists h2, pos p u idx line c2 = Some h2 /\ p_byte h1 <= p_byte h2 /\ p_line h2 = line /\ p_col h2 = c2.
+Proof.
+  intros p u idx line c1 c2 h1 H1 Hc H. unfold pos in *.
+  destruct ((line <? pp_lo p) || (if pp_hi_incl p then Z.of_nat (length idx) <? line else Z.of_nat (length idx) <=? line)).
+  - injection H as <-. eexists. split; [reflexivity|]. cbn [p_byte p_line p_col]. lia.
+  - destruct (line <? 1); [discriminate H|].
+    destruct (nth_error idx (Z.to_nat (line - 1))) as [l|]; [|discriminate H].
+    destruct (l_ascii l).
+    + injection H as <-. eexists. split; [reflexivity|]. cbn [p_byte p_line p_col].
+      pose proof (slenZ_nonneg (l_line l)).
+      destruct (pp_clamp p); [|lia].
+      destruct ((1 <=? c1) && (c1 - 1 <? slenZ (l_line l))) eqn:E1;
+        destruct ((1 <=? c2) && (c2 - 1 <? slenZ (l_line l))) eqn:E2; lia.
+    + injection H as <-. eexists. split; [reflexivity|]. cbn [p_byte p_line p_col].
+      pose proof (walk_mono (clusters p u (l_line l)) (l_off l) 1 c1 c2 Hc). lia.
+Qed.
+
+Lemma nth_error_split_len : forall (ls : list string) k l, nth_error ls k = Some l ->
+  exists pre post, ls = pre ++ l :: post /\ length pre = k /\ pre = firstn k ls.
+Proof.
+  intros ls k l H. destruct (nth_error_split ls k H) as (pre & post & E & L).
+  exists pre, post. repeat split; [exact E | exact L|].
+  rewrite E, <- L, firstn_app, firstn_all, Nat.sub_diag. cbn [firstn]. now rewrite app_nil_r.
+Qed.
+
+(* for EVERY node whose begin exists in the text (what yaml.v3 reports) and whose end line is a line of the text:
+   the range is reported, begins at the right byte and does not end before it begins — whether or not the
+   (line, column) computed for the end exists (ends of block, folded and multi-line scalars often do not:
+   [end_missing]).  With the clamp of a repaired pos the end also stays inside the text. *)
+Theorem range_bytes_ordered : forall p u text n tb,
+  let nl := Z.of_nat (length (lines_of text)) in
+  let el := fst (end_lc p n) in
+  let ec := snd (end_lc p n) in
+  true_byte text (yn_line n) (yn_col n) = Some tb ->
+  (forall line, line_ok p nl line) ->
+  irregular_before p u text (yn_line n) (yn_col n) = false ->
+  lex_le (yn_line n) (yn_col n) el ec -> 1 <= ec -> el <= nl ->
+  exists e, node_range p u (new_position_index text) n
+            = Some ({| p_line := yn_line n; p_col := yn_col n; p_byte := tb |}, e)
+    /\ p_line e = el /\ p_col e = ec /\ 0 <= tb /\ tb <= p_byte e
+    /\ (pp_clamp p = true -> pp_runes p = true -> p_byte e <= slenZ text).
+Proof.
+  intros p u text n tb nl el ec Hb Hok Hz Hle Hec Hel.
+  pose proof (pos_true_byte p u text _ _ tb Hb (Hok _) Hz) as Pb.
+  pose proof (true_byte_bounds _ _ _ _ Hb) as Bb.
+  unfold node_range, yaml_end_pos. destruct (end_lc p n) as [el' ec'] eqn:Ee. cbn [fst snd] in el, ec.
+  subst el ec. rewrite Pb.
+  assert (Hl1 : 1 <= yn_line n <= nl).
+  { unfold true_byte in Hb. fold nl in Hb.
+    destruct ((1 <=? yn_line n) && (yn_line n <=? nl) && (1 <=? yn_col n)) eqn:E; [lia | discriminate Hb]. }
+  assert (Hl2 : 1 <= el') by (unfold lex_le in Hle; lia).
+  destruct (nth_error (lines_of text) (Z.to_nat (el' - 1))) as [l2|] eqn:N2;
+    [|apply nth_error_None in N2; unfold nl in Hel; lia].
+  destruct (nth_error_split_len _ _ _ N2) as (pre2 & post2 & E2 & L2 & F2).
+  assert (Hline : el' = Z.of_nat (length pre2) + 1) by lia.
+  destruct (pos_line_bounds p u text pre2 l2 post2 ec' E2 (Hok _) Hec) as (bt & Pe & Lo & Hi).
+  rewrite <- Hline in Pe.
+  assert (Hin : pp_clamp p = true -> pp_runes p = true -> bt <= slenZ text).
+  { intros Hc Hr. specialize (Hi Hc Hr). rewrite (text_len_split text pre2 l2 post2 E2).
+    destruct post2; [lia|]. pose proof (slenZ_nonneg (join_nl (s :: post2))). lia. }
+  destruct Hle as [Hlt | [Heq Hcol]].
+  - (* the end is on a later line *)
+    rewrite Pe. eexists. split; [reflexivity|]. cbn [p_line p_col p_byte].
+    split; [reflexivity|]. split; [reflexivity|]. split; [lia|]. split; [|exact Hin].
+    apply true_byte_decomp in Hb. destruct Hb as (pre & l & post & cs1 & cs2 & Hl & Hc & Hln & _ & ->).
+    assert (N1 : nth_error (lines_of text) (length pre) = Some l)
+      by (rewrite Hl, nth_error_app2, Nat.sub_diag by lia; reflexivity).
+    pose proof (lines_len_firstn_S _ _ _ N1) as HS.
+    assert (Fp : firstn (length pre) (lines_of text) = pre).
+    { rewrite Hl, firstn_app, firstn_all, Nat.sub_diag. cbn [firstn]. now rewrite app_nil_r. }
+    rewrite Fp in HS.
+    pose proof (lines_len_firstn_mono (lines_of text) (S (length pre)) (Z.to_nat (el' - 1)) ltac:(lia)) as HM.
+    rewrite <- F2 in HM.
+    pose proof (concat_prefix_le cs1 cs2) as Hp. rewrite <- Hc, chars_concat in Hp. lia.
+  - (* same line *)
+    rewrite <- Heq in *.
+    assert (Hc1 : 1 <= yn_col n).
+    { unfold true_byte in Hb. fold nl in Hb.
+      destruct ((1 <=? yn_line n) && (yn_line n <=? nl) && (1 <=? yn_col n)) eqn:E; [lia | discriminate Hb]. }
+    destruct (pos_mono_col p u _ _ _ _ _ Hc1 Hcol Pb) as (h2 & P2 & Hle2 & Hl2' & Hc2).
+    rewrite P2. eexists. split; [reflexivity|]. cbn [p_byte] in Hle2.
+    rewrite P2 in Pe. injection Pe as ->. cbn [p_line p_col p_byte] in *.
+    split; [reflexivity|]. split; [reflexivity|]. split; [lia|]. split; [lia | exact Hin].
 Qed.
